@@ -26,6 +26,7 @@ SCENARIOS = ["connect", "lossy-connect", "ping-missed", "rf-fault", "needs-atten
 AUTO_SCENARIOS = ["auto-reset-ping", "auto-reset-rf", "auto-reset-attention"]
 KINDS = ["reset", "setinfo", "exit"]
 GRACE = 1.0
+EXIT_CAP = 300.0   # virtual seconds after which a context exit that has not returned counts as hanging
 LATE_WINDOW = 300.0
 _N_CACHE: Dict[Any, int] = {}
 
@@ -343,7 +344,17 @@ async def scenario(world: WorldA) -> None:
         exit_stall0 = world.clock.stall_total_ns
         if "t" not in snap:
             take_snapshot()
+
+        async def exit_watchdog() -> None:
+            # a context exit that never returns (a task that swallowed its cancellation keeps gather() waiting) is a verdict, not a cap
+            await asyncio.sleep(EXIT_CAP)
+            alive = sorted(t.get_name() for t in library_tasks())
+            world.abort(PROP, "exit-hangs", f"the context exit had not returned {EXIT_CAP:.0f}s after the body was left; library tasks still alive: "
+                        f"{alive} (scenario={scen} inject={inj} state_at_injection={snap.get('state')})",
+                        sig="exit-hangs:" + "+".join(sorted({a.split('#')[0] for a in alive})))
+        wd = asyncio.create_task(exit_watchdog(), name="HARNESS:exit-watchdog")
     # ---- after __aexit__ -------------------------------------------------------------------------------------------
+    wd.cancel()
     exit_t1 = world.now()
     stall = (world.clock.stall_total_ns - exit_stall0) / 1e9
     left = [t.get_name() for t in library_tasks()]
